@@ -2,6 +2,7 @@ import WsVerif.Model.IO.Instruments
 import WsVerif.Lemmas.Sums
 import WsVerif.Lemmas.Instruments
 import WsVerif.Gen.Lits
+import WsVerif.Gen.NpKernels
 import WsVerif.Props.C10
 import Mathlib.Data.Rat.Floor
 import Mathlib.Tactic.NormNum
@@ -667,5 +668,12 @@ example := triaxys_dirs 90 4 (by norm_num) (by norm_num)
 example : triaxysDirs 90 = [0, 90, 180, 270, 360] := by decide +kernel
 
 end Examples
+
+/-! ## T-tier: regenerated kernels
+
+`utils.to_nautical` (used by the SWAN reader for `CDIR` headers) is regenerated in full by
+`harness/translate_np.py` and identified with the model. -/
+
+theorem gen_to_nautical_eq (a : ℚ) : Gen.toNautical a = toNautical a := rfl
 
 end WS.C13
